@@ -1122,6 +1122,15 @@ class Key(object):
             if self._public_uncompressed_hex:
                 self._public_uncompressed_byte = bytes.fromhex(self._public_uncompressed_hex)
             self.public_byte = self.public_compressed_byte if self.compressed else self.public_uncompressed_byte
+            if strict:
+                # Refuse encodings which are not a point on the secp256k1 curve: nobody can spend from their addresses
+                x = int(self.x_hex, 16)
+                y2 = (pow(x, 3, secp256k1_p) + 7) % secp256k1_p
+                y = int(self.y_hex, 16) if self.y_hex else mod_sqrt(y2)
+                if self.public_compressed_hex[:2] not in ['02', '03'] or len(self.public_compressed_hex) != 66 or \
+                        (self._public_uncompressed_hex or '04')[:2] != '04' or \
+                        x >= secp256k1_p or y >= secp256k1_p or pow(y, 2, secp256k1_p) != y2:
+                    raise BKeyError("Public key is not a point on the secp256k1 curve")
 
         elif self.is_private and self.key_format == 'decimal':
             self.secret = int(import_key)
